@@ -1,6 +1,7 @@
 mod adapter;
 mod choice;
 mod gen;
+mod link;
 mod machine;
 mod model;
 mod props;
@@ -79,6 +80,7 @@ fn main() {
             if let Some(c) = &out.case {
                 println!("{}", serde_json::to_string_pretty(c.get("shown").unwrap_or(c)).unwrap());
             }
+            println!("labels={:?} skips={:?} facts={:?} nontrivial={}", ctx.labels, ctx.skips, ctx.facts, ctx.nontrivial);
             for v in &out.violations {
                 println!("violation sig={:?}\n{}", v.sig, v.msg);
             }
